@@ -98,6 +98,8 @@ def crafted():
     c.append(("unterminated-string", b'char *s = "abc'))
     c.append(("attr-eof", b"[[foo("))
     c.append(("dup-label", b"void f(void){a: a: ;}"))
+    c.append(("designator-in-macro-twice", b"#define I {.a = 1, .b = 2}\nstruct S {int a, b;} x = I, y = I;\n#define O __builtin_offsetof(struct S, b)\n"
+              b"unsigned long o1 = O, o2 = O;\n#define A(s) (s.a + s.b)\nint f(void){ return A(x) + A(y) + A(x); }\n"))
     c.append(("void-param", b"void f2(void b) { } struct S; void f3(struct S s) { }"))
     c.append(("div-zero", b"int x = 1/0; long y = (-9223372036854775807L-1)/-1; int z = 1%0;"))
     # every host-undefined constant division, one per unit and per folding context (a trap in one hides the others)
